@@ -669,12 +669,26 @@ fn node_part(ctx: &mut Ctx) {
 }
 
 pub fn run(ctx: &mut Ctx) {
+    let t0 = std::time::Instant::now();
+    let mut lap = |what: &str| {
+        if std::env::var_os("VERIF_TIMING").is_some() {
+            eprintln!("c16 {:>14} done at {:?}", what, t0.elapsed());
+        }
+    };
     seq_part(ctx);
+    lap("seq");
     epoch_windows(ctx);
+    lap("epoch_windows");
     ops_part(ctx);
+    lap("ops");
     thread_part(ctx);
+    lap("thread");
     ref_part(ctx);
+    lap("ref");
     ref_start_part(ctx);
+    lap("ref_start");
     node_part(ctx);
+    lap("node");
     crate::c16_sched::run(ctx);
+    lap("sched");
 }
